@@ -9,9 +9,11 @@ for f in sorted(glob.glob(os.path.join(here, "evidence", "C*.json"))):
     obs = c.get("observed", {})
     keys = [k for k in obs if k.startswith("max_") or k in ("states_compared", "solves", "bisimulations", "pairs", "dicts", "blocks", "lines", "prune_exits",
                                                            "histories", "files_written", "boards", "names_parsed", "k_runs", "freq_tiles", "boundary_cases",
-                                                           "in_scope", "tie_states", "exact_checked", "solves_in_scope", "calls_direct", "value_form_solves", "removed")]
-    sel = ", ".join("%s=%s" % (k, (round(obs[k], 3) if isinstance(obs[k], float) else obs[k])) for k in sorted(keys)[:9])
+                                                           "in_scope", "tie_states", "exact_checked", "solves_in_scope", "calls_direct", "value_form_solves", "removed", "concurrent_solves", "concurrent_searches",
+                                                           "batch_runs_in_threads", "xproc_processes", "run_games_logs_checked", "games_with_exact_rewards")]
+    sel = ", ".join("%s=%s" % (k, (round(obs[k], 3) if isinstance(obs[k], float) else obs[k])) for k in sorted(keys)[:12])
     mc = c.get("monitor_counters", {})
-    env = "debug-workers=%s, -O workers=%s" % (mc.get("env.debug_loglevel_workers", 0), mc.get("env.optimized_interpreter_workers", 0))
+    env = "debug-workers=%s, -O workers=%s, warnings-as-errors workers=%s, solves with flag as int=%s" % (
+        mc.get("env.debug_loglevel_workers", 0), mc.get("env.optimized_interpreter_workers", 0), mc.get("env.warnings_as_errors_workers", 0), mc.get("solve.flag_given_as_int", 0))
     print("| %s | %s/%s | %s | %s | %s | %s; %s | %s |" % (e["property_id"], e["tier"], e["seed"], c["evaluations"], c["distinct_nontrivial"],
                                                       c.get("known_finding_hits") or "-", sel, env, e["wall_s"]))
